@@ -20,13 +20,14 @@ from sim import workloads as W
 from sim import faults as F
 from sim import receivers as R
 
-POOL_QUICK = 160
+POOL_QUICK = 320
 POOL_THOROUGH = 1200
 
 SIMPLE_CFG_STEPS = [
     ("nseq", 1),
     ("extras", None),
     ("mix", None),
+    ("color", None),
     ("npics", 1),
     ("frag", 0),
     ("sy", 1),
@@ -41,6 +42,8 @@ SIMPLE_CFG_STEPS = [
 def cfg_class(cfg):
     if isinstance(cfg, list):
         return "tc:" + cfg[0]
+    if isinstance(cfg, dict) and "units" in cfg:
+        return "hist:" + "".join(u["t"] for u in cfg["units"])[:10]
     if cfg is None:
         return "raw"
     return "%s%s%s%s" % (
@@ -53,6 +56,7 @@ def cfg_class(cfg):
 
 class ByteChanSpec(Spec):
     sim = "A"
+    guard_globals = True
     chunk = 250
     state_measure = "distinct (configuration class, fault-kind set, receiver verdict classes) tuples"
     components = {
@@ -104,7 +108,22 @@ class ByteChanSpec(Spec):
             return {"raw": (head + bytes(rng.randrange(256) for _ in range(n))).hex()}
         if r < 0.08:
             return {"cfg": dict(W.minimal_config())}
-        if r < 0.26:
+        if r < 0.20:
+            # a data-unit history from simulation B's channel (level 0, real
+            # level tables): structural faults with state carried over from
+            # earlier units, on top of which byte faults are applied
+            from sim import unitchan as U
+
+            cfg = dict(self.pool[rng.randrange(min(24, len(self.pool)))])
+            try:
+                upool = U.get_pool(cfg)
+                units = U.gen_history(rng, upool, levels=[0])
+                _data, _abs, misframed = U.assemble(upool, units)
+                if not misframed:
+                    return {"hist": {"cfg": cfg, "units": units}}
+            except W.WorkloadError:
+                pass
+        if r < 0.36:
             # a stream from the real decoder test-case generators
             codec = rng.choice(W.TC_CODECS)
             streams = W.testcase_streams(codec)
@@ -115,6 +134,16 @@ class ByteChanSpec(Spec):
     def source_bytes(self, case):
         if "raw" in case:
             return bytes.fromhex(case["raw"])
+        if "hist" in case:
+            from sim import unitchan as U
+
+            try:
+                data, _abs, misframed = U.assemble(U.get_pool(case["hist"]["cfg"]), case["hist"]["units"])
+            except (IndexError, TypeError, KeyError) as e:
+                raise W.WorkloadError("malformed history: %r" % (e,))
+            if misframed:
+                raise W.WorkloadError("history breaks the composition rule")
+            return data
         if "tc" in case:
             streams = W.testcase_streams(case["tc"][0])
             if case["tc"][1] >= len(streams) or streams[case["tc"][1]][0] != case["tc"][2]:
@@ -138,9 +167,11 @@ class ByteChanSpec(Spec):
             nf = 2
         else:
             nf = rng.randrange(3, 7)
+        if "hist" in case and rng.random() < 0.5:
+            nf = 0  # the history's own structural faults are the faults
         k = rng.randrange(2, 9)
         enabled = rng.sample(self.fault_kinds, min(k, len(self.fault_kinds)))
-        fmap = F.field_map(data) if ("cfg" in case or "tc" in case) else None
+        fmap = F.field_map(data) if ("cfg" in case or "tc" in case or "hist" in case) else None
         case["faults"] = F.gen_faults(rng, fmap, len(data), nf, enabled)
         return case
 
@@ -150,6 +181,9 @@ class ByteChanSpec(Spec):
             d = dict(case)
             d["faults"] = fl
             yield d
+        if "hist" in case:
+            for us in shrink_list(case["hist"]["units"]):
+                yield dict(case, hist=dict(case["hist"], units=us))
         if "cfg" in case:
             for k, v in SIMPLE_CFG_STEPS:
                 if case["cfg"].get(k) != v:
@@ -161,7 +195,7 @@ class ByteChanSpec(Spec):
 
     # ---- execution scaffolding
     def execute(self, case):
-        events = [("case", repr(sorted(case.get("cfg", {}).items())), case.get("raw"), case.get("tc"), repr(case["faults"]))]
+        events = [("case", repr(sorted(case.get("cfg", {}).items())), case.get("raw"), case.get("tc"), repr(case.get("hist")), repr(case["faults"]))]
         stats = Counter()
         try:
             clean = self.source_bytes(case)
@@ -213,7 +247,7 @@ def hash_bytes(b):
 class C02(ByteChanSpec):
     prop = "C02"
     title = "Validator terminates with a verdict on any byte string"
-    quick_runs = 48000
+    quick_runs = 36000
     thorough_runs = 1200000
     rule = (
         "each run = one seeded workload (real encoder output for a seeded small codec configuration, or raw bytes) "
@@ -230,7 +264,7 @@ class C02(ByteChanSpec):
         vname = res.verdict if res.exc is None or res.verdict == "accept" else "%s:%s" % (res.verdict, type(res.exc).__name__)
         events.append(("validator", vname, res.reads, len(res.pics)))
         stats["verdict:" + vname] += 1
-        key = "%s|%s|%s" % (cfg_class(case.get("cfg") or case.get("tc")), self.kinds_of(case), vname)
+        key = "%s|%s|%s" % (cfg_class(case.get("cfg") or case.get("tc") or case.get("hist")), self.kinds_of(case), vname)
         if res.verdict == "oos":
             stats["discard:out-of-scope"] += 1
             return Outcome(DISCARD, events, stats=stats, key=None, ticks=res.reads)
@@ -290,7 +324,7 @@ SERDES_KINDS = F.ALL_KINDS + ["f_offsets", "f_offsets", "f_uint", "f_uint", "f_l
 class C06(ByteChanSpec):
     prop = "C06"
     title = "Deserialising then serialising any parseable stream reproduces its bytes"
-    quick_runs = 32000
+    quick_runs = 24000
     thorough_runs = 800000
     fault_kinds = SERDES_KINDS
     rule = (
@@ -305,7 +339,7 @@ class C06(ByteChanSpec):
     def judge(self, case, clean, data, changed, events, stats):
         d = R.run_deserialiser(data)
         events.append(("deser", d.verdict, type(d.exc).__name__ if d.exc else None, d.reads))
-        key = "%s|%s|%s" % (cfg_class(case.get("cfg") or case.get("tc")), self.kinds_of(case), d.verdict)
+        key = "%s|%s|%s" % (cfg_class(case.get("cfg") or case.get("tc") or case.get("hist")), self.kinds_of(case), d.verdict)
         if d.verdict == "oos":
             stats["discard:out-of-scope"] += 1
             return Outcome(DISCARD, events, stats=stats, ticks=d.reads)
@@ -366,7 +400,7 @@ register(C06())
 # C08 / C09 — accepted streams: the two parsers agree; pictures are well formed
 # --------------------------------------------------------------------------
 
-ACCEPT_KINDS = ["f_coeff"] * 6 + ["flip", "flip", "f_lenbyte", "f_lenbyte", "f_bool", "f_uint", "f_fixed", "set", "f_picnum", "burst", "zero", "f_unit_dup", "f_unit_drop", "append", "f_ld_resize", "f_ld_resize"]
+ACCEPT_KINDS = ["f_coeff"] * 6 + ["flip", "flip", "f_lenbyte", "f_lenbyte", "f_bool", "f_uint", "f_fixed", "set", "f_picnum", "burst", "zero", "f_unit_dup", "f_unit_drop", "append", "f_ld_resize", "f_ld_resize", "f_frag_alias"]
 
 
 def h_quant_factor(i):
@@ -515,7 +549,7 @@ class AcceptedSpec(ByteChanSpec):
             stats["accepted_after_fault"] += 1
             for f in case["faults"]:
                 stats["accepted_after:" + f.get("kind", f["k"])] += 1
-        key = "%s|%s|pics=%d" % (cfg_class(case.get("cfg") or case.get("tc")), self.kinds_of(case), len(v.pics))
+        key = "%s|%s|pics=%d" % (cfg_class(case.get("cfg") or case.get("tc") or case.get("hist")), self.kinds_of(case), len(v.pics))
         return self.judge_accepted(case, data, changed, v, events, stats, key)
 
     def extra_evidence(self, merged):
@@ -529,7 +563,7 @@ class AcceptedSpec(ByteChanSpec):
 class C08(AcceptedSpec):
     prop = "C08"
     title = "Bitstream deserialiser and validator read identical content"
-    quick_runs = 24000
+    quick_runs = 18000
     thorough_runs = 600000
     assumptions = ByteChanSpec.assumptions + [
         "slice geometry helpers (vc2_conformance.pseudocode.slice_sizes) are shared by both parsers and by the oracle; dequantisation and DC prediction are re-implemented in the harness",
@@ -667,7 +701,7 @@ register(C08())
 class C09(AcceptedSpec):
     prop = "C09"
     title = "Every decoded picture is well-formed"
-    quick_runs = 32000
+    quick_runs = 24000
     thorough_runs = 800000
     rule = (
         "each run = seeded workload + explicit fault list weighted towards slice payload bits (extreme / dangling "
